@@ -85,6 +85,8 @@ def rule_db_layout(ctx) -> None:
                     continue
                 al = info["OFFSET_ALIGNMENT"] or 1
                 eff = -(-off // al) * al
+                if eff != off:
+                    chk.bad("C14.db-layout", where, f"segment `{name}` is prescribed at {off:#x} but its class alignment {al} moves it to {eff:#x}", "every prescribed static offset is a multiple of the segment class's OFFSET_ALIGNMENT (the exporter aligns the offset up)", f"spsdk/data/devices/{dev}/database.yaml")
                 first_static_seen = True
                 if prev_static is not None:
                     pname, pend = prev_static
@@ -354,6 +356,21 @@ def rule_parse_fallthrough(ctx) -> None:
     chk.floor("C14.parse-fallthrough", 8)
 
 
+def rule_floating_search(ctx) -> None:
+    """C14.floating-search: the scanner that locates a floating AHAB container set hands the header check everything from the candidate
+    offset to the end of the data (a container header can be longer than one 0x400 slot: 8 images, PQC signatures)."""
+    chk = ctx.chk
+    AI = "spsdk/image/ahab/ahab_image.py"
+    fn = ctx.own(AI, "AHABImage", "find_offset_of_ahab")
+    calls = [c for c in ast.walk(fn.node) if isinstance(c, ast.Call) and isinstance(c.func, ast.Attribute) and c.func.attr in ("check_container_head", "pre_parse_verify")]
+    if len(calls) < 1:
+        raise AnalysisError("C14.floating-search: header checks of find_offset_of_ahab not found")
+    for c in calls:
+        a = A.inline_locals(fn.node, c.args[0]) if c.args else None
+        ok = isinstance(a, ast.Subscript) and isinstance(a.slice, ast.Slice) and norm(a.value) == "binary" and a.slice.upper is None and a.slice.lower is not None and norm(a.slice.lower) == "offset"
+        chk.decide(ok, "C14.floating-search", fn.qual, "the candidate is checked on binary[offset:] (no upper bound)", f"header check sees `{norm(a) if a is not None else None}`: a header longer than the window is reported as missing", "binary[offset:]", A.loc(AI, c))
+
+
 def run(ctx) -> None:
     ctx.chk.explain("C14: all (family, revision, memory type) segment tables of the database are linted against the Segment class model reconstructed from the AST (names resolve, "
                     "static offsets increase in declaration order, fixed-size segments end before the next one, an application container exists, patterns valid); the dynamic "
@@ -365,6 +382,7 @@ def run(ctx) -> None:
     ctx.rule(rule_pattern_and_export)
     ctx.rule(rule_raw_bytes)
     ctx.rule(rule_parse_fallthrough)
+    ctx.rule(rule_floating_search)
     ctx.chk.assumptions = ["segment payload parsers are decided by their own properties (C01/C06/C07/C12)", "BinaryImage composition is decided in C16",
                            "not decided: byte equality after parse, floating-segment search inside binaries"]
 
